@@ -419,7 +419,9 @@ def make_summaries(avail, default):
         (r"Iterator>::skip_while::<", s_adapt("skip_while")),
         (r"Iterator>::filter::<", s_adapt("filter")),
         (r"Iterator>::map::<", s_adapt("map")),
-        (r"as IntoIterator>::into_iter$", s_ident),
+        (r"as IntoIterator>::into_iter$", lambda m, st, args, callee: (ret(st, ("iter", tuple(m.deref_all(st, args[0])[1]), 0))
+                                                                       if isinstance(m.deref_all(st, args[0]), tuple) and m.deref_all(st, args[0])[0] in ("vec", "slice")
+                                                                       else ret(st, args[0]))),
         (r"Iterator>::next$", s_next),
         (r"^Vec::<L>::retain::<", s_retain),
         (r"^Vec::<L>::push$", s_push),
